@@ -176,8 +176,16 @@ func layoutRules(P *Program, r *Result, kinds []string) {
 func checkC01(P *Program, r *Result, tier string) {
 	r.Explanation = "Byte-layout summaries (E3) of the 13 value kinds (scalars, strings/binaries, field/map/list/set headers, STOP): WRITE-LAYOUT (the in-place, appending and stream writer each store, contiguously from offset 0, exactly the bytes of the Thrift Binary encoding, expressed as bit ranges of their arguments; big-endian order and 4-byte length prefixes are part of the specification table), " +
 		"LEN (XLength and the in-place writer's return value equal the number of bytes stored), READ-LAYOUT (the buffer reader and the stream reader compute every result from the same big-endian loads at the same positions, with the same sign/zero extension, and consume exactly the encoded length). " +
-		"The specification table is written in the checker; agreement of writer and reader with that one table gives the round trip."
+		"TIGHT (no buffer reader requires a byte beyond what it consumes). The specification table is written in the checker; agreement of writer and reader with that one table gives the round trip."
 	layoutRules(P, r, codecKinds[1:]) // the message envelope is C12's subject
+	// exact fit: a reader must accept a buffer that holds exactly the encoded bytes
+	var rdFns []*ssa.Function
+	for _, k := range codecKinds[1:] {
+		if f := P.Method(relThrift, "BinaryProtocol", "Read"+k); f != nil {
+			rdFns = append(rdFns, f)
+		}
+	}
+	tightRules(P, r, "TIGHT", rdFns)
 	// the stream halves sit on bufiox: its delivery rules are part of what this property needs
 	expl := r.Explanation
 	checkC04(P, r, tier)
